@@ -276,6 +276,8 @@ def confirm_and_shrink(prop, binary, findings, known_sigs=(), extra_env=None, do
         reps = 0
         last = None
         hangs = 0
+        if f.get("kind") == "hang" and HANG_SIG in seen:
+            continue            # one confirmed hang is enough (each confirmation costs 3 x 60 s)
         for _ in range(3):
             rc, (kind, sig, reason, case), text = run_file(binary, f["path"], env)
             if kind in ("violation", "sanitizer"):
